@@ -86,12 +86,21 @@ class World:
                         hw[k] = v
                         return v
                     ns[f'write_m_{k}'] = w
-        cls = type('SMod', (C.Module,), ns)
+        inherited = combined and rng.random() < 0.4
+        if inherited:
+            # the combined access methods come from a hardware mixin / base class, the struct is declared by the module class
+            mix = type('HwMixin', (), {k: ns.pop(k) for k in ('read_ctrl', 'write_ctrl') if k in ns})
+            cls = type('SMod', (mix, C.Module), ns)
+        else:
+            cls = type('SMod', (C.Module,), ns)
         node = self.node_for({'s': {'cls': cls, 'description': 'x'}})
         m = node.secnode.modules['s']
         conn = self.nodes.Conn()
         node.dispatcher.add_connection(conn)
+        # (the class shape is not part of the mechanism keys: where the methods are defined must not matter)
         layout = f'{"combined" if combined else "separate"}{"-ro" if readonly else ""}'
+        if inherited:
+            r.count('struct_sequences_with_inherited_access_methods')
         ops = []
         diverged = False
         suspended = False     # after a failed access the pair may disagree until the next successful read of the struct
@@ -145,7 +154,7 @@ class World:
                     suspended = True
                     continue
                 r.violation(f'C18/struct/{layout}/raises/{op}', f'{op} raised {type(e).__name__}: {e}'[:200],
-                            {'sub': 'struct', 'combined': combined, 'readonly': readonly, 'members': members, 'ops': ops})
+                            {'sub': 'struct', 'combined': combined, 'inherited': inherited, 'readonly': readonly, 'members': members, 'ops': ops})
                 break
             if fail['fired'] > fired0:
                 r.count('struct_driver_faults_swallowed')    # the operation caught the fault itself (error stored as read error)
@@ -166,7 +175,7 @@ class World:
                     r.violation(f'C18/struct/{layout}/member-stays-in-error-after/{op}',
                                 f'after {op}: the struct holds {dict(m.ctrl)} without error, the members {inerr} are still in error state '
                                 f'({m.parameters["m_" + inerr[0]].readerror!r})'[:250],
-                                {'sub': 'struct', 'combined': combined, 'readonly': readonly, 'members': members, 'ops': ops})
+                                {'sub': 'struct', 'combined': combined, 'inherited': inherited, 'readonly': readonly, 'members': members, 'ops': ops})
                     break
             st = m.ctrl
             bad = [kk for kk in members if st.get(kk) != getattr(m, 'm_' + kk)]
@@ -174,7 +183,7 @@ class World:
                 diverged = True
                 r.violation(f'C18/struct/{layout}/diverged-after/{op}',
                             f'after {op}: struct {dict(st)} but members { {kk: getattr(m, "m_" + kk) for kk in members} }'[:250],
-                            {'sub': 'struct', 'combined': combined, 'readonly': readonly, 'members': members, 'ops': ops})
+                            {'sub': 'struct', 'combined': combined, 'inherited': inherited, 'readonly': readonly, 'members': members, 'ops': ops})
             elif not bad:
                 diverged = False      # a later operation re-synchronised the pair
         r.count('struct_sequences')
